@@ -584,6 +584,37 @@ func stuckRootRaw(s *simrt.Sim, t *simrt.Task, stk string) (string, string) {
 		return "", ""
 	}
 	rst := s.StacksOf([]*simrt.Task{root})[root.ID]
+	// The holder at the end of the lock chain may itself only be waiting for a channel's state machine (a hook that
+	// queries channel state with a cache lock held, say). If the stage of a state machine is blocked behind a lock whose
+	// chain ends somewhere else, that other task is the root and this holder one more victim; if the chain ends at this
+	// holder, it is the classic inversion (the stage needs the lock the holder keeps while waiting for the machine).
+	for depth := 0; depth < 3 && !cycle && waitsForStateMachine(rst); depth++ {
+		var stages []*simrt.Task
+		for _, bt := range s.BlockedTasks() {
+			if bt.WaitsOn != nil {
+				stages = append(stages, bt)
+			}
+		}
+		sst := s.StacksOf(stages)
+		var next *simrt.Task
+		nextCycle, own := false, false
+		for _, bt := range stages {
+			if !strings.Contains(sst[bt.ID], "go-statemachine") {
+				continue
+			}
+			rt2, cyc2 := rootOf(bt)
+			if rt2 == root {
+				own = true
+			} else if rt2 != nil && rt2 != t && next == nil {
+				next, nextCycle = rt2, cyc2
+			}
+		}
+		if own || next == nil {
+			break
+		}
+		root, cycle = next, nextCycle
+		rst = s.StacksOf([]*simrt.Task{root})[root.ID]
+	}
 	kind := "lock-held-for-ever-by:"
 	if cycle {
 		kind = "lock-cycle-through:"
